@@ -344,6 +344,28 @@ func registerIntrinsics(e *Engine) {
 		}
 		return res
 	}
+	// Compare(a, b): -1, 0, +1 lexicographically (one term)
+	r("internal/bytealg.Compare", func(p *Path, _ *frame, _ *ssa.Function, args []Value, _ ssa.CallInstruction) Value {
+		F := p.F
+		ea, eb := byteElems(p, args[0], "bytealg.Compare"), byteElems(p, args[1], "bytealg.Compare")
+		var res *term.T
+		switch {
+		case len(ea) < len(eb):
+			res = F.BVConstI(-1, 64)
+		case len(ea) > len(eb):
+			res = F.BVConst64(1, 64)
+		default:
+			res = F.BVConst64(0, 64)
+		}
+		n := len(ea)
+		if len(eb) < n {
+			n = len(eb)
+		}
+		for i := n - 1; i >= 0; i-- {
+			res = F.Ite(F.BvUlt(ea[i], eb[i]), F.BVConstI(-1, 64), F.Ite(F.BvUlt(eb[i], ea[i]), F.BVConst64(1, 64), res))
+		}
+		return res
+	})
 	r("internal/bytealg.IndexByte", indexByte)
 	r("internal/bytealg.IndexByteString", indexByte)
 
